@@ -50,6 +50,15 @@ fn decode_find(src: &mut Source, which: Which) -> Box<dyn Case> {
             .collect();
         w.limit = n + src.below(3);
     }
+    if (which == Which::C03 || which == Which::C13) && src.chance(1, 30) {
+        // a keyword-stuffed title of 33-60 words; its late words must be as findable as its early ones
+        let vocab = gen_vocab(src, w.lang, Flavor::Clean, 4, 8);
+        let n = src.range(33, 60);
+        let words: Vec<String> = (0..n).map(|_| if src.chance(1, 2) { src.pick(&vocab).clone() } else { gen_random_word(src, w.lang, true) }).collect();
+        let id = w.recs.len() + 1;
+        w.recs.push((id, words.join(" "), gen_rating(src)));
+        w.limit = w.limit.max(w.recs.len());
+    }
     if which == Which::C04 {
         // lengths 5-7 sit closest to the 0.21 threshold: add words of exactly those lengths
         let extra = src.range(1, 3);
@@ -151,6 +160,7 @@ impl FindCase {
                         ctx.label_if(wd.is_function(), "function-word");
                         ctx.label_if(vi == 1, "original-spelling");
                         ctx.label_if(w.recs.len() > 64, "store>64");
+                        ctx.label_if(wi >= 32, "word-beyond-32nd");
                     }
                 }
             }
